@@ -484,6 +484,27 @@ def to_val(v, objs):
         if any(x is None for x in xs):
             return None
         return {"list": {"xs": xs}}
+    if type(v) is tuple:
+        xs = [to_val(x, objs) for x in v]
+        if any(x is None for x in xs):
+            return None
+        return {"tuple": {"xs": xs}}
+    if type(v) in (set, frozenset) and type(v) is set:
+        xs = [to_val(x, objs) for x in v]
+        if any(x is None for x in xs):
+            return None
+        return {"set": {"xs": xs}}
+    if type(v) is dict:
+        ks = [to_val(x, objs) for x in v.keys()]
+        vs = [to_val(x, objs) for x in v.values()]
+        if any(x is None for x in ks + vs):
+            return None
+        return {"dict": {"ks": ks, "vs": vs}}
+    if type(v) is slice:
+        parts = [to_val(x, objs) for x in (v.start, v.stop, v.step)]
+        if any(x is None for x in parts):
+            return None
+        return {"slice": {"lo": parts[0], "hi": parts[1], "step": parts[2]}}
     if not _representable_value(v):
         return {"fn": {"name": getattr(v, "__name__", "fn")}}
     for i, o in enumerate(objs):
@@ -509,6 +530,14 @@ def from_val(j, objs):
         return j["str"]["s"]
     if "list" in j:
         return [from_val(x, objs) for x in j["list"]["xs"]]
+    if "tuple" in j:
+        return tuple(from_val(x, objs) for x in j["tuple"]["xs"])
+    if "set" in j:
+        return set(from_val(x, objs) for x in j["set"]["xs"])
+    if "dict" in j:
+        return dict(zip([from_val(x, objs) for x in j["dict"]["ks"]], [from_val(x, objs) for x in j["dict"]["vs"]]))
+    if "slice" in j:
+        return slice(from_val(j["slice"]["lo"], objs), from_val(j["slice"]["hi"], objs), from_val(j["slice"]["step"], objs))
     if "obj" in j:
         return objs[j["obj"]["id"]]
     return len
